@@ -290,9 +290,13 @@ def one_history(seed):
         except (ZeroDivisionError, OverflowError, ValueError):
             continue
         build = ""
+        # a third of the histories keep their constraints in a ConstraintDict (as the hydraulic model does)
+        m._use_dict = rnd.random() < 0.33
         try:
+            if m._use_dict:
+                m.cd = aml.ConstraintDict()
             for name, j, e in cons:
-                setattr(m, name, aml.Constraint(e))
+                set_con(m, name, aml.Constraint(e))
         except Exception as ex:
             build = "%s: %s" % (type(ex).__name__, str(ex)[:80])
         steps = rnd.randint(1, 4)
@@ -346,8 +350,15 @@ def one_history(seed):
                 if not ok:
                     break
                 try:
-                    delattr(m, cons[ci][0])
-                    setattr(m, cons[ci][0], aml.Constraint(e))
+                    if m._use_dict and rnd.random() < 0.4:
+                        # remove the whole dictionary and build it again with the new set of constraints
+                        del m.cd
+                        m.cd = aml.ConstraintDict()
+                        for name, _, ee in new:
+                            set_con(m, name, aml.Constraint(ee))
+                    else:
+                        del_con(m, cons[ci][0])
+                        set_con(m, cons[ci][0], aml.Constraint(e))
                 except Exception as ex:
                     build = "%s: %s" % (type(ex).__name__, str(ex)[:80])
                 cons = new
@@ -357,6 +368,20 @@ def one_history(seed):
             return events
         return events
     return events
+
+
+def set_con(m, name, c):
+    if m._use_dict:
+        m.cd[name] = c
+    else:
+        setattr(m, name, c)
+
+
+def del_con(m, name):
+    if m._use_dict:
+        del m.cd[name]
+    else:
+        delattr(m, name)
 
 
 def pyeval_all(cons, vals):
@@ -386,7 +411,7 @@ def event(cons, vals, model, build):
     for v in live:
         ev["obs"]["vidx"][v] = int(leaves[v].index)
     for n, j, _ in cons:
-        c = getattr(m, n)
+        c = m.cd[n] if m._use_dict else getattr(m, n)
         ci = int(c.index)
         ev["obs"]["cidx"][n] = ci
         val = float(r[ci])
